@@ -165,14 +165,17 @@ def _detect_group(args):
             if rc:
                 res[sid] = {"status": "patch does not apply", "log": o[-200:]}
                 continue
-            env = dict(os.environ, VERIF_SEED=os.environ.get("VERIF_SEED", "20260930"), PFHEDGE_REPO=wt)
+            rdir = f"{WS}/replays_{sid}"
+            shutil.rmtree(rdir, ignore_errors=True)
+            env = dict(os.environ, VERIF_SEED=os.environ.get("VERIF_SEED", "20260930"), PFHEDGE_REPO=wt, VERIF_DEV_REPLAY_DIR=rdir)
             rc, out = sh([f"{V}/check", prop, "--tier", tier], cwd=V, env=env, timeout=7200)
             viol = [l for l in out.splitlines() if l.startswith("VIOLATION")]
             keys = []
             for l in viol:
                 m = re.search(r"replay=(\S+)", l)
-                if m and os.path.exists(f"{V}/{m.group(1)}"):
-                    r = json.load(open(f"{V}/{m.group(1)}"))
+                rp = os.path.normpath(os.path.join(V, m.group(1))) if m else None
+                if rp and os.path.exists(rp):
+                    r = json.load(open(rp))
                     keys.append(r.get("key") or ("tie-broken:" + ",".join(sorted({t.get('kind', '?') + ':' + str(t.get('op', '')) for t in r.get('ties_broken', [])}))))
             res[sid] = {"property": prop, "tier": tier, "rc": rc, "detected": rc == 1 and bool(viol), "violations": viol[:4], "keys": keys[:6],
                         "tail": out.strip().splitlines()[-1][-200:] if out.strip() else "", "how": "scratch worktree of /repo HEAD + PFHEDGE_REPO"}
@@ -180,6 +183,7 @@ def _detect_group(args):
         finally:
             sh(["git", "-C", "/repo", "worktree", "remove", "--force", wt])
             shutil.rmtree(wt, ignore_errors=True)
+            shutil.rmtree(f"{WS}/replays_{sid}", ignore_errors=True)
     return res
 
 
@@ -187,11 +191,12 @@ def detect_parallel(ids, tier="quick", workers=6):
     os.makedirs(WS, exist_ok=True)
     groups = {}
     for sid in ids:
-        groups.setdefault(json.load(open(f"{V}/seeded/{sid}/meta.json"))["property"], []).append(sid)
-    resf = f"{V}/seeded/detection.json"
+        # each run has its own replay directory, so the changes of one property can run side by side
+        groups.setdefault(sid, []).append(sid)
+    resf = os.environ.get("SEEDED_RESULT", f"{V}/seeded/detection.json")
     results = json.load(open(resf)) if os.path.exists(resf) else {}
     with cf.ThreadPoolExecutor(max_workers=workers) as ex:
-        for res in ex.map(_detect_group, [(p, s, tier) for p, s in sorted(groups.items())]):
+        for res in ex.map(_detect_group, [(json.load(open(f"{V}/seeded/{s[0]}/meta.json"))["property"], s, tier) for p, s in sorted(groups.items())]):
             results.update(res)
             json.dump(results, open(resf, "w"), indent=1)
     missed = [k for k in ids if not results.get(k, {}).get("detected")]
